@@ -1,5 +1,5 @@
 // C27 wrappers: the real hash_t code from /repo, reached through POD entry points.
-#include "/repo/src/utils/hash.cpp"
+#include "utils/hash.cpp"
 #include <occa/utils/hash.hpp>
 #include <occa/internal/utils/string.hpp>
 #include <cstring>
